@@ -28,6 +28,24 @@ use rustc_hir::def::DefKind;
 use rustc_interface::interface::Compiler;
 use rustc_middle::ty::{self, TyCtxt};
 
+/// Canonical definition path (no re-export / trimmed printing), stable across std / no_std builds.
+pub fn dps<'tcx>(tcx: TyCtxt<'tcx>, did: rustc_span::def_id::DefId) -> String {
+    use rustc_middle::ty::print::{with_no_trimmed_paths, with_no_visible_paths};
+    with_no_visible_paths!(with_no_trimmed_paths!(tcx.def_path_str(did)))
+}
+pub fn dpsa<'tcx>(
+    tcx: TyCtxt<'tcx>,
+    did: rustc_span::def_id::DefId,
+    args: ty::GenericArgsRef<'tcx>,
+) -> String {
+    use rustc_middle::ty::print::{with_no_trimmed_paths, with_no_visible_paths};
+    with_no_visible_paths!(with_no_trimmed_paths!(tcx.def_path_str_with_args(did, args)))
+}
+pub fn tys<'tcx>(t: ty::Ty<'tcx>) -> String {
+    use rustc_middle::ty::print::{with_no_trimmed_paths, with_no_visible_paths};
+    with_no_visible_paths!(with_no_trimmed_paths!(t.to_string()))
+}
+
 struct Drv {
     out: String,
     krate: String,
@@ -41,7 +59,10 @@ impl Callbacks for Drv {
         if name != self.krate {
             return Compilation::Continue;
         }
-        let j = dump_crate(tcx, &self.nonce, &self.config);
+        let j = {
+            use rustc_middle::ty::print::{with_no_trimmed_paths, with_no_visible_paths};
+            with_no_visible_paths!(with_no_trimmed_paths!(dump_crate(tcx, &self.nonce, &self.config)))
+        };
         let mut s = String::new();
         j.write(&mut s);
         // one write per process
@@ -72,7 +93,7 @@ fn main() {
 fn dump_crate<'tcx>(tcx: TyCtxt<'tcx>, nonce: &str, config: &str) -> J {
     let mut bodies = Vec::new();
     let mut keys: Vec<_> = tcx.mir_keys(()).iter().copied().collect();
-    keys.sort_by_key(|k| tcx.def_path_str(k.to_def_id()));
+    keys.sort_by_key(|k| dps(tcx, k.to_def_id()));
     for ldid in keys {
         let did = ldid.to_def_id();
         let kind = tcx.def_kind(did);
@@ -120,7 +141,7 @@ fn crate_facts<'tcx>(tcx: TyCtxt<'tcx>) -> J {
                                 J::s(match f.vis {
                                     ty::Visibility::Public => "pub".to_string(),
                                     ty::Visibility::Restricted(m) => {
-                                        format!("in:{}", tcx.def_path_str(m))
+                                        format!("in:{}", crate::dps(tcx, m))
                                     }
                                 }),
                             ),
@@ -132,7 +153,7 @@ fn crate_facts<'tcx>(tcx: TyCtxt<'tcx>) -> J {
                     ]));
                 }
                 adts.push(J::obj(vec![
-                    ("path", J::s(tcx.def_path_str(did))),
+                    ("path", J::s(crate::dps(tcx, did))),
                     ("kind", J::s(format!("{:?}", tcx.def_kind(did)))),
                     ("reachable", J::Bool(ev.is_reachable(ldid))),
                     ("repr_transparent", J::Bool(adt.repr().transparent())),
@@ -145,7 +166,7 @@ fn crate_facts<'tcx>(tcx: TyCtxt<'tcx>) -> J {
                 let tr = if of_trait {
                     let tr = tcx.impl_trait_ref(did).instantiate_identity().skip_norm_wip();
                     J::obj(vec![
-                        ("path", J::s(tcx.def_path_str(tr.def_id))),
+                        ("path", J::s(crate::dps(tcx, tr.def_id))),
                         ("s", J::s(tr.to_string())),
                     ])
                 } else {
@@ -154,7 +175,7 @@ fn crate_facts<'tcx>(tcx: TyCtxt<'tcx>) -> J {
                 let items: Vec<J> = tcx
                     .associated_item_def_ids(did)
                     .iter()
-                    .map(|d| J::s(tcx.def_path_str(*d)))
+                    .map(|d| J::s(crate::dps(tcx, *d)))
                     .collect();
                 impls.push(J::obj(vec![
                     ("trait", tr),
@@ -164,8 +185,8 @@ fn crate_facts<'tcx>(tcx: TyCtxt<'tcx>) -> J {
                     ("span", mirjson::span_json(tcx, tcx.def_span(did))),
                 ]));
             }
-            DefKind::Static { .. } => statics.push(J::s(tcx.def_path_str(did))),
-            DefKind::ExternCrate => extern_crates.push(J::s(tcx.def_path_str(did))),
+            DefKind::Static { .. } => statics.push(J::s(crate::dps(tcx, did))),
+            DefKind::ExternCrate => extern_crates.push(J::s(crate::dps(tcx, did))),
             _ => {}
         }
     }
